@@ -347,6 +347,10 @@ def can_interrupt(b):
         return b.s[0] != '-'
     if b.kind == 'list':
         return (not b.ordered) or b.start == 1
+    if b.kind == 'table':
+        # GFM: a header row + delimiter row directly after paragraph text begin a table (mistletoe's documented default,
+        # Table.interrupt_paragraph = True; the paragraph keeps the lines before the header row)
+        return True
     return False
 
 
